@@ -99,3 +99,45 @@ Example buffered_nontrivial :
   let b2 := b_run 3 2 b1 [BDone 0; BEmit; BEmit; BFill; BDone 2; BEmit] in
   b2 = mkB 3 [] [0; 1; 2] /\ buffered_result res 3 b2 = Some (Some [0; 10; 20]).
 Proof. vm_compute. repeat split; reflexivity. Qed.
+
+(* the settled states the harness cases are evaluated in are reachable by steps: everything above holds for them *)
+Lemma b_run_app n maxc b s1 s2 : b_run n maxc b (s1 ++ s2) = b_run n maxc (b_run n maxc b s1) s2.
+Proof. unfold b_run. apply fold_left_app. Qed.
+
+Lemma done_fold_is_run n maxc (open : nat -> bool) : forall l b,
+  exists sch, fold_left (fun b j => if open j then b_step n maxc b (BDone j) else b) l b = b_run n maxc b sch.
+Proof.
+  induction l as [|j l IH]; intros b; cbn [fold_left].
+  - exists (@nil bstep). reflexivity.
+  - destruct (open j).
+    + destruct (IH (b_step n maxc b (BDone j))) as [sch E]. exists (BDone j :: sch). rewrite E. reflexivity.
+    + destruct (IH b) as [sch E]. exists sch. exact E.
+Qed.
+Lemma emit_all_is_run n maxc : forall fuel b, exists sch, emit_all fuel n maxc b = b_run n maxc b sch.
+Proof.
+  induction fuel as [|fu IH]; intros b; cbn [emit_all].
+  - exists (@nil bstep). reflexivity.
+  - destruct (b_win b) as [|[j [|]] r]; try (exists (@nil bstep); reflexivity).
+    destruct (IH (b_step n maxc b BEmit)) as [sch E]. exists (BEmit :: sch). rewrite E. reflexivity.
+Qed.
+Lemma fill_all_is_run n maxc (open : nat -> bool) : forall fuel b, exists sch, fill_all fuel n maxc open b = b_run n maxc b sch.
+Proof.
+  induction fuel as [|fu IH]; intros b; cbn [fill_all].
+  - exists (@nil bstep). reflexivity.
+  - destruct ((length (b_win b) <? maxc) && (b_next b <? n)); [|exists (@nil bstep); reflexivity].
+    destruct (open (b_next b)).
+    + destruct (IH (b_step n maxc (b_step n maxc b BFill) (BDone (b_next b)))) as [sch E].
+      exists (BFill :: BDone (b_next b) :: sch). rewrite E. reflexivity.
+    + destruct (IH (b_step n maxc b BFill)) as [sch E]. exists (BFill :: sch). rewrite E. reflexivity.
+Qed.
+Theorem b_settle_is_run_proof : forall fuel n maxc open b, exists sch, b_settle fuel n maxc open b = b_run n maxc b sch.
+Proof.
+  induction fuel as [|fu IH]; intros n maxc open b; cbn [b_settle].
+  - exists (@nil bstep). reflexivity.
+  - unfold done_open.
+    destruct (done_fold_is_run n maxc open (map fst (b_win b)) b) as [s1 E1]. rewrite E1.
+    destruct (emit_all_is_run n maxc (S n) (b_run n maxc b s1)) as [s2 E2]. rewrite E2.
+    destruct (fill_all_is_run n maxc open (S n) (b_run n maxc (b_run n maxc b s1) s2)) as [s3 E3]. rewrite E3.
+    destruct (IH n maxc open (b_run n maxc (b_run n maxc (b_run n maxc b s1) s2) s3)) as [s4 E4]. rewrite E4.
+    exists (s1 ++ s2 ++ s3 ++ s4). rewrite !b_run_app. reflexivity.
+Qed.
